@@ -81,6 +81,7 @@ func (s *Server) Step(c *Conn) {
 		return
 	}
 	out := c.OutCopy()
+	c.ConsumeTo(len(out)) // the server process reads bytes as they arrive
 	pkt, err := s.Parser.Next(out)
 	if err != nil {
 		c.Sim.Note("srv", "parse-error")
@@ -92,7 +93,6 @@ func (s *Server) Step(c *Conn) {
 	}
 	s.tried = -1
 	s.Packets = append(s.Packets, pkt)
-	c.Consume(pkt.End - pkt.Off)
 	c.Sim.Note("srv", "recv:"+pkt.Kind.String())
 	if s.pos < len(s.Script) && s.Script[s.pos].OnPacket != nil {
 		st := &s.Script[s.pos]
